@@ -21,6 +21,7 @@ import random
 import re
 import sys
 
+import c04f_tie
 import k5
 import rustgen
 import tocoq
@@ -592,6 +593,8 @@ def run(ctx):
         "IR/Serde.v as the meaning of serde on a type space (hand model; tied to compiled GENERATED code by K5 in "
         "C02/C03 and to the compiled ORIGIN crate by K5-origin here, every run)",
         "Algo/RustDefs.v ir_of_rust as the meaning of the Rust definitions (tied by K5-origin)",
+        "Algo/Schemars.v schema_of_rust as schemars' derive on the fragment (tied: exact equality with the real schemars output); "
+        "Algo/Convert.v convert_doc as typify's converter on the fragment (tied: K3 exact equality of type spaces)",
         "schemars 0.8.22 is OBSERVED (the real derive output is fed to typify), not modelled",
         "py/rustgen.py (universe -> Rust source / Gallina term), py/tocoq.py, py/world.py, verif_dump hook",
         "value equality of the origin type: derived PartialEq, and equality of the origin's own serialisations",
@@ -601,6 +604,8 @@ def run(ctx):
         "the forall-program quantifier is explored by seeded generated universes + curated corpus; the forall-value "
         "quantifier by generated candidates and their mutations that the ORIGIN type accepts",
         "C04_wire_compat_from_equiv applies where C14's proven checker wire_equiv answers true (a strict structural equivalence); elsewhere the executed value exchange decides",
+        "C04F_fragment_wire_compat: for every universe of rust_frag the property is a theorem about the models "
+        "(schemars model / converter model / ir_of_rust / Serde.v), each tied to the real code on every run",
     ]
     vlib.build_harness(bins=("vh", "c04"))
     alt = os.environ.get("C04_VH")          # emulation of a change to typify: a `vh` built against a modified COPY of /repo
@@ -610,7 +615,9 @@ def run(ctx):
     corpus = load_corpus()
     n_rand = 20 if quick else 150
     rand = rustgen.generate(ctx.seed, n_rand, rustgen.RANDOM_PROFILE)
-    us = [c["universe"] for c in corpus] + rand
+    # universes of the C04F fragment (3 of 4) and near misses (1 of 4): they go through the whole pipeline as well
+    fragus = c04f_tie.generate(ctx.seed, 24 if quick else 120)
+    us = [c["universe"] for c in corpus] + rand + fragus
     extra = {i: c.get("values", {}) for i, c in enumerate(corpus)}
     name = ("c04q" if quick else "c04t") + (("x" + __import__("hashlib").sha256(open(alt, "rb").read()).hexdigest()[:6]) if alt else "")
     run_ = Run(ctx, name, us, 6 if quick else 8, ctx.seed, extra_values=extra, nmut=1).execute()
@@ -623,6 +630,35 @@ def run(ctx):
         coq_ok = vlib.standard_coq_obligations(ctx, "Props.C04", THEOREMS, vlib.STD_AXIOMS)
     else:
         ctx.oblige("Props/C04.v present", False, "property theorem file missing")
+
+    # ---- C04F: the universe quantifier closed on a fragment (Props/C04F.v) + the ties of its models
+    f_thms = re.findall(r"\b(?:Theorem|Example)\s+(C04F_\w+)", vlib.strip_coq_comments(open(PROPS.replace("C04.v", "C04F.v")).read())) \
+        if os.path.exists(PROPS.replace("C04.v", "C04F.v")) else []
+    if f_thms:
+        vlib.standard_coq_obligations(ctx, "Props.C04F", f_thms, vlib.STD_AXIOMS)
+    else:
+        ctx.oblige("Props/C04F.v present", False, "fragment theorem file missing")
+    tie_bad = None
+    try:
+        res, real, dumps = c04f_tie.evaluate(ctx, "c04f" + ("q" if quick else "t"), us, o)
+        summ = c04f_tie.summarize(res, us)
+        ctx.coverage["c04f_tie"] = {k: (len(v) if isinstance(v, list) else v) for k, v in summ.items()}
+        nin, nout = summ["in_fragment"], summ["outside"]
+        for key, what in (("S", "schemars model: Algo/Schemars.schema_of_rust U = the definitions the REAL schemars derive emits "
+                                 "(exact term equality)"),
+                          ("F", "C04F_schemars_in_frag evaluated: in_frag (real definitions) = true"),
+                          ("K", "converter model K3: convert_doc (real definitions) = Some (the REAL typify type space), exact"),
+                          ("W", "C04F conclusion on the real type space: wire_equiv_all (ir_of_rust U) T = true on every definition")):
+            bad = summ["mismatch_%s" % {"S": "S_schemars_model", "F": "F_in_frag", "K": "K_converter_model", "W": "W_wire_equiv"}[key]]
+            ctx.oblige("%s, on %d universes of the fragment (%d generated near misses classified out)" % (what, nin, nout),
+                       not bad, json.dumps([{"universe": i, "rust": rustgen.rs_universe(us[i])[:1500]} for i in bad[:1]])[:1800])
+            if bad and tie_bad is None:
+                tie_bad = {"kind": "c04f-tie-" + key, "what": what, "universe": us[bad[0]], "rust": rustgen.rs_universe(us[bad[0]]),
+                           "real_schemars_definitions": real.get(bad[0]), "real_typify_dump": dumps.get(bad[0]), "verdicts": res[bad[0]]}
+        ctx.oblige("C04F tie covers both polarities (universes inside and outside the fragment)", nin >= 5 and nout >= 1,
+                   json.dumps(ctx.coverage["c04f_tie"]))
+    except Exception as e:  # noqa
+        ctx.oblige("C04F tie evaluates", False, str(e)[-1500:])
 
     # ---- generator health
     ctx.oblige("origin crate: every generated universe compiles with serde+schemars derive (%d universes)" % len(us),
@@ -811,6 +847,9 @@ def run(ctx):
         if not reported:
             ctx.violation(dict(v, broken_obligations=[b[0] for b in ctx.broken()]))
             reported = True
+    if not reported and tie_bad:
+        ctx.violation(dict(tie_bad, broken_obligations=[b[0] for b in ctx.broken()]))
+        reported = True
     if not reported and flat_bad:
         fb = flat_bad[0]
         ctx.violation(dict(fb, kind="distinguishable-untagged-enum-flattened", universe=us[fb["universe_index"]],
@@ -831,3 +870,6 @@ def run(ctx):
         rc, out, err = vlib.sh("timeout 1500 coqchk -silent -o -Q theories Typify Typify.Props.C04", cwd=vlib.COQ,
                                timeout=1600)
         ctx.oblige("coqchk re-checks Props.C04 and dependencies", rc == 0, (out + err)[-1500:])
+        rc, out, err = vlib.sh("timeout 1500 coqchk -silent -o -Q theories Typify Typify.Props.C04F", cwd=vlib.COQ,
+                               timeout=1600)
+        ctx.oblige("coqchk re-checks Props.C04F and dependencies", rc == 0, (out + err)[-1500:])
